@@ -1,5 +1,6 @@
 """C09 - requests are the protocol's, go to the right port, and echo challenges."""
 from valve_common import *
+from quake_common import quake_specs, quake_case
 
 ID = "C09"
 PROPS_FILE = "C09"
@@ -36,10 +37,28 @@ def gen_cases(tier, rng):
         cases.append({"id": "req/%d" % s["seed"], "hex": assemble(s["settings"], evs, s["bz"]),
                       "meta": {"stream": "valve-requests" + ("-mutated" if mutated else ""), "events": [None if e is None else e.hex() for e in evs],
                                "tags": {k: v for k, v in s["tags"].items() if k != "pk"}}})
+    qs = quake_specs([(rng.next() >> 1, 1 + (i % 3)) for i in range(150 if tier == "quick" else 3000)])
+    for q in qs:
+        port = r.choice([27960, 27500, 27910, 1, 65535])
+        retries = r.below(3)
+        evs = [None] * r.below(retries + 2) + [q["dg"]]
+        cases.append({"id": "qreq/%d" % q["seed"], "hex": quake_case(port, q["ver"], {"retries": retries}, evs),
+                      "meta": {"stream": "quake-requests", "quake": q["ver"], "port": port, "events": [], "tags": {}}})
     return cases
 
 
+QUAKE_REQ = {1: "ffffffff73746174757300", 2: "ffffffff73746174757300", 3: "ffffffff67657473746174757300"}
+
+
 def oracle(case, impl, side):
+    if "quake" in case["meta"]:
+        res, trace = split_result(impl)
+        for t in (trace or "").split(";"):
+            if t.startswith("S"):
+                p, _, d = t[1:].partition(":")
+                if int(p) != case["meta"]["port"] or d != QUAKE_REQ[case["meta"]["quake"]]:
+                    return ("quake-request", "quake %d sent %s to port %s" % (case["meta"]["quake"], d[:60], p))
+        return None
     res, trace = split_result(impl)
     if "PANIC" in (res or ""):
         return None     # C01's business
@@ -51,8 +70,10 @@ def oracle(case, impl, side):
 
 
 def nontrivial(case, model):
+    if "quake" in case["meta"]:
+        return True
     return any(e is not None and e.startswith("ffffffff41") for e in case["meta"]["events"])
 
 
 def extra_runs(tier, rng, ctx):
-    return [], {"uncovered_protocols": ["gamespy 1/2/3", "quake 1/2/3", "unreal2", "minecraft", "mindustry", "savage2", "ffow", "definitions table ports"]}
+    return [], {"uncovered_protocols": ["gamespy 1/2/3", "unreal2", "minecraft", "mindustry", "savage2", "ffow", "definitions table ports"]}
